@@ -134,6 +134,29 @@ def run(ctx):
             good = (fld(pre(1), "R")(a[0]) and pre(2)(a[1]) and pre(0)(a[2]))
         ctx.check(good, "AGREE", g.key, "pre_verify->challenge(R,vk,msg)",
                   "the challenge must be computed from the pre_verify-normalised (signature.R, key, message)", g.loc)
+        if key.endswith("Item::<C>::new") and len(pv) == 1:
+            # the queued item holds the same normalised key and signature the challenge was computed for
+            oks = [v.cx.operand(rv["ops"][0]) for (b, k, rv) in ret_writes(g) if k == "ok"]
+            pre = lambda k: (lambda t: t[0] == "field" and t[3] == str(k) and t[1][0] == "ok" and is_call(t[1][1], name="pre_verify"))
+            good = len(oks) == 1 and pre(2)(get_field(oks[0], "vk")) and pre(1)(get_field(oks[0], "sig")) and \
+                get_field(oks[0], "c")[0] == "ok" and is_call(get_field(oks[0], "c")[1], name="challenge")
+            ctx.check(good, "AGREE", g.key, "item==(normalised key, normalised signature, their challenge)",
+                      "a batch item must store the pre_verify-normalised key and signature together with the challenge "
+                      "computed for them (otherwise an item that verifies alone is rejected in a batch)", g.loc)
+        if key.endswith("verify_signature") and len(pv) == 1:
+            tails = [v.cx.call(t, (g.key, b)) for (b, k, t) in ret_writes(g) if k == "call"]
+            pre = lambda k: (lambda t: t[0] == "field" and t[3] == str(k) and t[1][0] == "ok" and is_call(t[1][1], name="pre_verify"))
+            good = len(tails) == 1 and is_call(tails[0], name="verify_prehashed") and pre(2)(tails[0][2][0]) and pre(1)(tails[0][2][2]) and \
+                tails[0][2][1][0] == "ok" and is_call(tails[0][2][1][1], name="challenge")
+            ctx.check(good, "AGREE", g.key, "verify_prehashed(normalised key, challenge, normalised signature)",
+                      "ordinary verification must check the normalised key and signature against their challenge", g.loc)
+    vs = ctx.anchor(CORE + "batch::Item::<C>::verify_single")
+    if vs:
+        v = FnView.get(P, vs)
+        tails = [v.cx.call(t, (vs.key, b)) for (b, k, t) in ret_writes(vs) if k == "call"]
+        good = len(tails) == 1 and is_call(tails[0], name="verify_prehashed") and fld(arg(1), "vk")(tails[0][2][0]) and \
+            fld(arg(1), "c")(tails[0][2][1]) and fld(arg(1), "sig")(tails[0][2][2])
+        ctx.check(good, "AGREE", vs.key, "verify_single==verify_prehashed(vk, c, sig)", "single-item verification must be verify_prehashed on the item's own fields", vs.loc)
     g = ctx.anchor(CORE + "verifying_key::VerifyingKey::<C>::verify_prehashed")
     if g:
         v = FnView.get(P, g)
